@@ -60,6 +60,12 @@ def cs(s: str) -> str:
     return "[" + "; ".join(str(ord(c)) for c in s) + "]"
 
 
+def b64(v) -> str:
+    import base64
+    import pickle
+    return base64.b64encode(pickle.dumps(v)).decode()
+
+
 def from_codes(l) -> str:
     return "".join(chr(int(x)) for x in l)
 
@@ -350,7 +356,7 @@ def run_keys(ctx: Ctx):
     witnesses = []
     for (m, f, a), mo in zip(cases, model):
         got = impl(m, f, a)
-        want = None if mo is None else [from_codes(mo[0][0]), from_codes(mo[0][1]), from_codes(mo[1])]
+        want = None if mo is None else [from_codes(x) for x in mo]      # Coq prints ((m, f), a) as (m, f, a)
         if got != want:
             mism.append([[m, f, a], got, want])
         guard = bool(m) and bool(f) and "." not in f and ":" not in a
@@ -493,6 +499,11 @@ def run_cds(ctx: Ctx, scratch: str):
     confs = cds_configs(ctx)
     n_seq = 6 if ctx.thorough else 3
     runs = []
+    # the two witnesses of cds_lru_of_objects_refuted, first (model-guided candidates): the client mutates the
+    # object it serialized / a resolver mutates the object it was handed (LRU of one entry, evicted in between)
+    for kind in ("mem", "sqlite"):
+        runs.append((kind, (False, 0, 0, 4), [("ser", [1, 2, 3], False), ("mut", 0, [9]), ("res", 0)]))
+        runs.append((kind, (False, 0, 0, 1), [("ser", [1, 2, 3], False), ("ser", [4], False), ("res", 0), ("mut", 2, [9]), ("res", 0)]))
     for conf in confs:
         for _ in range(n_seq):
             ops = gen_cds_seq(rng, rng.randint(6, 16))
@@ -504,7 +515,7 @@ def run_cds(ctx: Ctx, scratch: str):
         dis, mn, mx, cap = conf
         exprs.append(
             "(fun r => (fst r, (store (snd r), map fst (lru (snd r))))) "
-            f"(run_obs str idS idS (fun _ => None) idS gen_cds {{| disabled := {'true' if dis else 'false'}; min_size := {mn}; "
+            f"(run_obs str (fun s => s) (fun s => s) (fun _ => None) (fun s => s) gen_cds {{| disabled := {'true' if dis else 'false'}; min_size := {mn}; "
             f"max_size := {mx}; lru_cap := {cap} |}} (st0 str) [{'; '.join(mops)}])")
     model = ev(ctx, exprs, chunk=60)
     mism = []
@@ -636,8 +647,7 @@ def run_e2e(ctx: Ctx, scratch: str):
             ctx.violation(f"roundtrip:{ser}:{what}:{canon(v)[0]}",
                           f"{ser}/{kind} min_size={mn} disable_cache_args={dca} disabled={dis}: {what} {v!r} comes back as {got!r} {extra}",
                           {"kind": "roundtrip", "serializer": ser, "backend": kind, "min_size": mn, "disable_cache_args": list(dca),
-                           "disabled": dis, "what": what, "value_repr": repr(v), "value_index": vals.index(v) if v in vals else -1,
-                           "observed": repr(got), "seed_note": "value regenerated from (seed, index) by replay"})
+                           "disabled": dis, "what": what, "value_repr": repr(v), "value_pickle_b64": b64(v), "observed": repr(got)})
         for idx, v in enumerate(vals):
             is_exc = isinstance(v, BaseException)
             y = vals[(idx * 7 + 3) % len(vals)]
@@ -663,7 +673,19 @@ def run_e2e(ctx: Ctx, scratch: str):
                 if set(sargs) != {"x", "y"}:
                     report("argument-names", v, sorted(sargs), "")
             except Exception as ex:  # noqa: BLE001 - a supported value must not raise on its way
-                report("argument", v, f"<{type(ex).__name__}: {ex}>", "(raised)")
+                # attribute the failure to the argument that does not survive on its own
+                culprit = v
+                for cand in (v, y):
+                    try:
+                        text = cds.serialize(cand)
+                        cds._deserialized_cache.clear()
+                        if canon(cds.resolve(text)) != canon(cand):
+                            culprit = cand
+                            break
+                    except Exception:  # noqa: BLE001
+                        culprit = cand
+                        break
+                report("argument", culprit, f"<{type(ex).__name__}: {ex}>", f"(raised while binding two(x={v!r}, y={y!r}))"[:300])
                 continue
             # result / exception: worker -> storage -> client
             try:
@@ -791,18 +813,28 @@ def run_json_tree(ctx: Ctx, reserved: dict):
     ]
     at = Atoms()
     exprs, impl = [], []
-    for v in vals + witnesses:
-        text = J.serialize(v)
-        tree = json.loads(text)
-        strip_messages(v, tree, reserved)
-        back = J.deserialize(text)
-        impl.append((jv_code(tree, at), pv_code(back, at), back))
+    kept = []
+    for i0, v in enumerate(vals + witnesses):
+        try:
+            text = J.serialize(v)
+            tree = json.loads(text)
+            strip_messages(v, tree, reserved)
+            back = J.deserialize(text)
+            codes = (jv_code(tree, at), pv_code(back, at), back)
+        except Exception as ex:  # noqa: BLE001 - a value of the domain must survive; a raise is a failed round trip
+            if i0 < len(vals):
+                ctx.violation(f"roundtrip:JsonSerializer:value:{canon(v)[0]}", f"JsonSerializer: {v!r} does not round-trip: {type(ex).__name__}: {ex}",
+                              {"kind": "json_value", "value_repr": repr(v), "value_pickle_b64": b64(v), "observed": f"<{type(ex).__name__}: {ex}>"})
+            continue
+        kept.append(v)
+        impl.append(codes)
         t = pv_term(v, at)
         exprs.append(f"(jv_code (preprocess gen_json {t}), pv_code (reconstruct gen_json (preprocess gen_json {t})), wf gen_json {t})")
     model = ev(ctx, exprs, chunk=40)
     mism = []
     wit_notes = []
-    for i, (v, (itree, iback, back), (mtree, mback, mwf)) in enumerate(zip(vals + witnesses, impl, model)):
+    for v, (itree, iback, back), (mtree, mback, mwf) in zip(kept, impl, model):
+        i = 0 if any(v is x for x in vals) else len(vals)
         mtree, mback = [int(x) for x in mtree], [int(x) for x in mback]
         if itree != mtree or iback != mback:
             mism.append({"value": repr(v)[:200], "tree_equal": itree == mtree, "reconstruct_equal": iback == mback})
@@ -811,7 +843,7 @@ def run_json_tree(ctx: Ctx, reserved: dict):
                 mism.append({"value": repr(v)[:200], "why": "generator produced a value outside wf"})
             if canon(back) != canon(v):
                 ctx.violation(f"roundtrip:JsonSerializer:value:{canon(v)[0]}", f"JsonSerializer: {v!r} comes back as {back!r}",
-                              {"kind": "json_value", "value_repr": repr(v), "observed": repr(back)})
+                              {"kind": "json_value", "value_repr": repr(v), "value_pickle_b64": b64(v), "observed": repr(back)})
         else:
             wit_notes.append({"guard": "no user dict carries a reserved key", "witness": repr(v)[:160], "deserialized": repr(back),
                               "round_trips": canon(back) == canon(v), "model_wf": bool(mwf), "model_agrees": iback == mback})
@@ -824,11 +856,16 @@ def run_json_tree(ctx: Ctx, reserved: dict):
 
     class _L(enum.IntEnum):
         A = 1
+    def obs(f):
+        try:
+            return repr(f())
+        except Exception as ex:  # noqa: BLE001
+            return f"<{type(ex).__name__}: {ex}>"
     ctx.notes["domain_restrictions_observed"] = [
-        {"what": "tuples come back as lists with JsonSerializer (JSON has no tuple)", "value": "(1, 2)", "observed": repr(J.deserialize(J.serialize((1, 2))))},
-        {"what": "non-str dict keys become str with JsonSerializer", "value": "{1: 2}", "observed": repr(J.deserialize(J.serialize({1: 2})))},
+        {"what": "tuples come back as lists with JsonSerializer (JSON has no tuple)", "value": "(1, 2)", "observed": obs(lambda: J.deserialize(J.serialize((1, 2))))},
+        {"what": "non-str dict keys become str with JsonSerializer", "value": "{1: 2}", "observed": obs(lambda: J.deserialize(J.serialize({1: 2})))},
         {"what": "IntEnum/StrEnum nested inside exception args or to_json() data lose their class (payloads are not pre-processed)",
-         "value": "ValueError(Level.HIGH)", "observed": repr(J.deserialize(J.serialize(ValueError(T.Level.HIGH))).args)},
+         "value": "ValueError(Level.HIGH)", "observed": obs(lambda: J.deserialize(J.serialize(ValueError(T.Level.HIGH))).args)},
     ]
 
 
@@ -919,17 +956,16 @@ def replay(ctx: Ctx, path: str) -> int:
             ser = rp.get("serializer", "JsonSerializer")
             app = world.make_app(rp.get("backend", "mem"), scratch, serializer_cls=ser, min_size_to_cache=rp.get("min_size", 1024),
                                  disable_client_data_store=rp.get("disabled", False))
-            env = {"T": T, "inf": float("inf"), "nan": float("nan")}
-            env.update({n: getattr(T, n) for n in ("Color", "Level", "Mode", "Money", "AppError", "Point")})
-            env.update({"Color": T.Color})
-            try:
-                v = eval(rp["value_repr"].replace("<Color.", "T.Color.").replace("<Level.", "T.Level.").replace("<Mode.", "T.Mode."), env)  # noqa: S307 - our own repr
-            except Exception:  # noqa: BLE001
-                print("cannot rebuild the value from its repr:", rp["value_repr"])
-                return 0
+            import base64
+            import pickle
+            v = pickle.loads(base64.b64decode(rp["value_pickle_b64"]))     # written by this check (our own test values)
             s = app.client_data_store.serialize(v)
             app.client_data_store._deserialized_cache.clear()
-            print("value", repr(v), "serialized", s[:120], "-> back", repr(app.client_data_store.resolve(s)), "| recorded:", rp["observed"])
+            try:
+                back = repr(app.client_data_store.resolve(s))
+            except Exception as ex:  # noqa: BLE001
+                back = f"<{type(ex).__name__}: {ex}>"
+            print("value", repr(v), "serialized", s[:120], "-> back", back, "| recorded:", rp["observed"])
         finally:
             world.rm_scratch(scratch)
     return 0
